@@ -320,6 +320,7 @@ def _stream_belongs(pid, m):
 
 def _streams(run):
     pid = run.pid
+    _suite_trace(run)
     # C12 is about one stream: exhaustive walks can go deeper; C13 needs the forest (slices of slices): the relation is much wider, so
     # exhaustive depth stays at 2 and the thorough tier adds a third live stream and a large seeded sample of long walks
     max_streams = 1 if pid == "C12" else (3 if run.thorough else 2)
@@ -375,6 +376,21 @@ def _streams(run):
 def c12(run):
     _streams(run)
     run.scen("MC_Limits", {}, own=by_prefix("prefixed_read", "typed_roundtrip", "scenario"), name="MC_Limits (size-prefixed reads on long streams, typed round trips incl. wide strings)")
+
+
+def _suite_trace(run):
+    """Pipeline V on the repository's own test suite: every stream operation the 141 tests perform, validated by Trace_StreamOps."""
+    log, passed = vlib.run_suite_traced()
+    n0 = len(run.mismatches)
+    v = validate(run, "Trace_StreamOps", log, "suite", what="repository test suite")
+    for m in run.mismatches[n0:]:
+        mk, mo = re.search(r'"kind": "(\w+)"', m["detail"]), re.search(r'"op": "(\w+)"', m["detail"])
+        kind, op = (mk.group(1) if mk else "?"), (mo.group(1) if mo else "?")
+        m["site"] = f"suite.{kind}.{op}/trace"
+    # which of the two stream properties an event of the suite speaks about: slices and bare file readers are C13's, the rest C12's
+    mine = [m for m in run.mismatches[n0:] if (("Slice" in m["site"] or ".file." in m["site"]) == (run.pid == "C13"))]
+    run.mismatches[n0:] = mine
+    run.part("repository test suite traced through the stream hooks", tests_passed=passed, events=v["events"])
 
 
 def c13(run):
